@@ -194,6 +194,18 @@ CLAIMED: dict[str, tuple[str, str, str, str, str]] = {
         "field-preservation table check + finite abstract evaluation of index arithmetic",
         "DESIGN §5 C13",
     ),
+    "C12": (
+        "other",
+        "Decides unification on a finite universe of shapes: unify/_unify_var/_unify_args are interpreted from their syntax "
+        "trees on all ordered pairs of 35 type shapes and 3 const shapes (every constructor, nominal discriminator, arity, "
+        "type-vs-const argument, ownership flags on linear/non-linear inputs, fresh/repeated/solved inference variables, depth "
+        "<= 2) x 3 starting substitutions = 3702 pairs, and compared with a reference unifier: same success/failure, returned "
+        "substitution unifies and extends the start, no crash/non-termination; plus constructor exhaustiveness of the match. "
+        "Most-generality and unbounded nesting are not decided.",
+        "Trusted: ast parser, gsa/absint/pyeval.py, the 40-line reference unifier in rules/C12.py. Bounded: shapes up to depth 2.",
+        "bounded-exhaustive abstract evaluation of the unifier against a reference + exhaustiveness table",
+        "DESIGN §5 C12",
+    ),
 }
 
 NOT_APPLICABLE: dict[str, str] = {
